@@ -114,6 +114,19 @@ def align(script, transcript):
                 if chunk[-1].startswith("S ") or (chunk[-1].startswith("E ") and
                                                    (i >= len(transcript) or not transcript[i].startswith("S "))):
                     break
+        elif op == "rtrip":
+            if i < len(transcript) and transcript[i].startswith("R "):
+                chunk.append(transcript[i])
+                i += 1
+                if chunk[0].startswith("R rt"):
+                    nw = 0
+                    while i < len(transcript) and transcript[i][:2] in ("W ", "T ", "E ", "S "):
+                        chunk.append(transcript[i])
+                        i += 1
+                        if chunk[-1].startswith("W "):
+                            nw += 1
+                            if nw == 2:
+                                break
         else:
             if op.startswith("lex "):
                 while i < len(transcript) and transcript[i].startswith("K "):
@@ -2580,3 +2593,221 @@ def run_c17(ctx):
 
 
 REGISTRY["C17"] = dict(module="Properties_C17", run=run_c17)
+
+
+# ------------------------------------------------------------------------------------------
+# C01: written configurations read back as the same configuration
+
+import struct as _struct
+import refparse
+import gen_text
+
+BOOLWORD = re.compile(rb"^\s*(true|false)\s*[=:]", re.I)
+
+
+def _dbl(bits):
+    return _struct.unpack("<d", _struct.pack("<Q", bits))[0]
+
+
+def _bits(x):
+    return _struct.unpack("<Q", _struct.pack("<d", x))[0]
+
+
+def printf_rendering(bits, prec, sci):
+    """the printf-style rendering the manual promises (%.*f, or %.*g with scientific notation allowed), uncut,
+    with libconfig's documented cosmetic: a trailing .0 when there is neither point nor exponent, excess zeros
+    removed"""
+    x = _dbl(bits)
+    r = ("%.*g" if sci else "%.*f") % (prec, x)
+    raw_len = len(r)
+    if "e" not in r:
+        if "." not in r:
+            r += ".0"
+        else:
+            head, frac = r.split(".")
+            frac = frac.rstrip("0")
+            r = head + "." + (frac if frac else "0")
+    return r, raw_len
+
+
+def c01_blocks(script, lines):
+    """[(tree1, attrs1, r, text1, tree2, err2, text2)] for every complete rtrip of the script"""
+    res = []
+    last = None
+    for op, out in align(script, lines):
+        if op == "dump" and out:
+            last = parse_dump(out)
+        elif op == "rtrip" and out and out[0].startswith("R rt") and last is not None:
+            ws = [l for l in out if l.startswith("W ")]
+            if len(ws) != 2:
+                continue
+            tree2, _, err2, _ = parse_dump([l for l in out if l[:2] in ("T ", "E ")])
+            res.append((last[0], last[1], int(out[0].split(" ")[2]), bytes.fromhex(ws[0][3:]), tree2, err2,
+                        bytes.fromhex(ws[1][3:])))
+    return res
+
+
+def c01_equiv(a, b, deffmt, prec, sci, path, bad):
+    """the property's equivalence between the written tree (a) and the re-read tree (b)"""
+    where = "/".join(map(str, path)) or "."
+    if a.name != b.name or a.ty != b.ty or len(a.kids) != len(b.kids):
+        bad.append("setting %s: name/type/arity %s %d %d became %s %d %d" % (where, a.name, a.ty, len(a.kids), b.name, b.ty, len(b.kids)))
+        return
+    if a.ty in (2, 3):
+        if a.val != b.val:
+            bad.append("setting %s: integer %s read back as %s" % (where, a.val, b.val))
+        if (a.fmt or deffmt) != (b.fmt or deffmt):
+            bad.append("setting %s: integer format %d read back as %d (default format %d)" % (where, a.fmt, b.fmt, deffmt))
+    elif a.ty == 6:
+        if (a.val != "b0") != (b.val != "b0"):
+            bad.append("setting %s: boolean %s read back as %s" % (where, a.val, b.val))
+    elif a.ty == 5:
+        if (a.val if a.val != "s-" else "sh") != (b.val if b.val != "s-" else "sh"):
+            bad.append("setting %s: string %s read back as %s" % (where, a.val[:80], b.val[:80]))
+    elif a.ty == 4:
+        bits = int(a.val[1:], 16)
+        r, raw_len = printf_rendering(bits, prec, sci)
+        try:
+            want = "f%016x" % _bits(float(r))
+        except (OverflowError, ValueError):
+            want = "?"
+        if b.val != want:
+            cls = ""
+            if not sci and raw_len > 60:
+                cls = " [class F1: the %%f rendering has %d characters, the writer's buffer holds 60]" % raw_len
+            bad.append("setting %s: float %s (rendering %s) read back as %s, the rendering denotes %s%s" % (
+                where, a.val, r[:70], b.val, want, cls))
+    for i, (x, y) in enumerate(zip(a.kids, b.kids)):
+        c01_equiv(x, y, deffmt, prec, sci, path + [i], bad)
+        if len(bad) > 3:
+            return
+
+
+FLOAT_LIT = re.compile(rb"[-+]?(?:[0-9]+\.[0-9]*|\.[0-9]+|[0-9]+)(?:[eE][-+]?[0-9]+)?")
+
+
+def c01_oracle(script, rec):
+    bad = died(script, rec)
+    for (t1, attrs, r, text1, t2, err2, text2) in c01_blocks(script, rec["impl"]):
+        options, tab, prec, deffmt = int(attrs[0]), int(attrs[1]), int(attrs[2]), int(attrs[3])
+        sci = bool(options & 32)
+        lines1 = text1.split(b"\n")
+        if r != 1:
+            ln = int(err2[3]) if err2 else 0
+            src = lines1[ln - 1] if 0 < ln <= len(lines1) else b""
+            cls = ""
+            if BOOLWORD.match(src):
+                cls = " [class F2: member named like a boolean keyword]"
+            else:
+                for m in FLOAT_LIT.finditer(src):
+                    try:
+                        if float(m.group(0)) in (float("inf"), float("-inf")):
+                            cls = " [class F1b: the %g rendering rounds above DBL_MAX]"
+                    except ValueError:
+                        pass
+                if b"inf" in src or b"nan" in src:
+                    cls = " [class F1b: non-finite rendering]"
+            bad.append("the written text is rejected by the reader (%s, line %d: %r)%s" % (
+                bytes.fromhex(err2[1][1:]).decode("latin-1") if err2 and err2[1] != "-" else "?", ln, src[:80], cls))
+            continue
+        b0 = len(bad)
+        c01_equiv(t1, t2, deffmt, prec, sci, [], bad)
+        # the documented reading of the text (reference tokenizer/parser) must be what the library read
+        ref = refparse.parse(text1)
+        if ref[0] == "ok":
+            if refparse.sig(ref[1], with_line=False) != (lambda f: f(f, t2))(lambda f, n: (n.name, n.ty, n.fmt, n.val, None, tuple(f(f, k) for k in n.kids))):
+                if len(bad) == b0:
+                    bad.append("the library's reading of the written text differs from the documented reading of that text")
+        if text2 != text1:
+            l2 = text2.split(b"\n")
+            k = next((i for i in range(min(len(lines1), len(l2))) if lines1[i] != l2[i]), min(len(lines1), len(l2)))
+            a_ = lines1[k] if k < len(lines1) else b"<end>"
+            b_ = l2[k] if k < len(l2) else b"<end>"
+            cls = ""
+            if sci:
+                for m in FLOAT_LIT.finditer(a_):
+                    try:
+                        v = float(m.group(0))
+                        if v != 0.0 and abs(v) < 2.2250738585072014e-308:
+                            cls = " [class F1c: denormal in scientific notation]"
+                    except ValueError:
+                        pass
+            if len(bad) == b0 or cls:
+                bad.append("writing the re-read configuration gives a different text: line %d %r became %r%s" % (k + 1, a_[:80], b_[:80], cls))
+        if len(bad) > 4:
+            break
+    return bad
+
+
+def known_c01(script, rec, orc):
+    """every message of the case must fall into a recorded class (otherwise the case is reported)"""
+    if not orc:
+        return None
+    hits = []
+    for o in orc:
+        m = match_known("C01", script, rec, [o])
+        if m is None:
+            return None
+        if m not in hits:
+            hits.append(m)
+    return "; ".join(hits)
+
+
+def c01_vectors(rng, n_random, full):
+    vs = []
+    if full:
+        for o in range(32):
+            vs.append((o << 1, 2, 6, 0))
+    else:
+        vs.append((0x16, 2, 6, 0))
+        for bit in (2, 4, 8, 16, 32):
+            vs.append((0x16 ^ bit, 2, 6, 0))
+    for _ in range(n_random):
+        vs.append((rng.randrange(32) << 1, rng.choice([0, 1, 2, 8, 15, 16, 200]), rng.randrange(16), rng.choice([0, 1])))
+    return vs
+
+
+def c01_cases(rng, ntrees, nparsed, big=False):
+    cases = []
+    for t in range(ntrees):
+        root = gen_api.gen_tree(rng, max_depth=rng.choice([1, 2, 3, 4, 6]), max_fan=rng.choice([2, 3, 5]), big=(big or t % 7 == 0))
+        body = ["init"] + gen_api.tree_script(root)
+        for p, n in gen_api.all_nodes(root):
+            if n.ty in (gen_api.T_INT, gen_api.T_INT64) and rng.random() < 0.3:
+                body.append("setfmt %s 1" % gen_api.path_str(p))
+        for (o, tab, prec, dfmt) in c01_vectors(rng, 4, full=(t % 10 == 0)):
+            body += ["options %d" % o, "tab %d" % tab, "prec %d" % prec, "deffmt %d" % dfmt, "dump", "rtrip"]
+        cases.append("\n".join(body) + "\n")
+    for t in range(nparsed):
+        text = gen_text.rand_config(rng, depth=rng.choice([2, 3, 4]))
+        body = ["init", "reads " + hx(text)]
+        for (o, tab, prec, dfmt) in c01_vectors(rng, 3, full=False)[:5]:
+            body += ["options %d" % o, "tab %d" % tab, "prec %d" % prec, "deffmt %d" % dfmt, "dump", "rtrip"]
+        cases.append("\n".join(body) + "\n")
+    return cases
+
+
+def run_c01(ctx):
+    res = Result()
+    rc = replay_cases(ctx)
+    q = ctx.tier == "quick"
+    cases = rc if rc is not None else c01_cases(ctx.rng, 150 if q else 3000, 60 if q else 1500)
+    res.rule = ("trees built through the API (depth 1-6, fan-out incl. 15/16/17/31/33, every scalar type, integer and "
+                "double boundary values, random finite doubles, strings over bytes 1..255 and lengths around 64, all "
+                "accepted name shapes incl. keyword look-alikes, own hex formats) and trees obtained by parsing random "
+                "texts; for each, several vectors of (all 5 output bits, tab 0..200, precision 0..15, default format): "
+                "dump; rtrip = config_write, config_read_string of that text into a second configuration with the same "
+                "settings, dump of it, config_write again.  Compared: model vs implementation line by line (texts byte "
+                "for byte), and on the implementation alone: the text is accepted, the re-read tree is equivalent "
+                "(nesting, names, order, types, integers, effective format, boolean truth, byte-exact strings, float = "
+                "value of its printf rendering computed independently), the library's reading equals the documented "
+                "reading (reference parser), and the second text equals the first")
+    res.distinct = len(set(cases))
+    res.distribution["ops"] = summarize_ops(cases[:40])
+    res.distribution["cases_api_built_vs_parsed"] = [len([c for c in cases if "\nreads " not in c]), len([c for c in cases if "\nreads " in c])]
+    res.samples = [cases[0][:700]] if cases else []
+    correspond(ctx, res, cases, drop_prefixes=(), oracle=c01_oracle, known=known_c01, per_proc=8)
+    return res
+
+
+REGISTRY["C01"] = dict(module="Properties_C01", run=run_c01)
